@@ -1,9 +1,11 @@
 """C16 — pip:try runs exactly the matching handler and contains the body's failure.
 
 Theorems: lean/Goat/Props/C16.lean (same model and monitor as C14: the try block = body task in a
-scope with its own context, handlers submitted after Wait on it).  Tie to /repo: harness/cmd/pipeline
-family c16 (handler subsets x failing handlers x body shapes enumerated, nested tasks, concurrently
-failing siblings), traces decided by the compiled monitor.  PARTIAL level as C14.
+scope with its own context, handlers submitted after Wait on it; handler submissions are events).
+Tie to /repo: harness/cmd/pipeline family c16 (handler subsets x failing handlers x body shapes
+enumerated, nested tasks, concurrently failing siblings) and the STEERED family c16s (the gate
+controller holds one handler of a try block at its first command until it has seen the fate of the
+other; `stall` if nothing happens), traces decided by the compiled monitor.  PARTIAL level as C14.
 """
 import pipeline_common as pc
 
@@ -11,16 +13,28 @@ META = dict(
     level_claimed=dict(
         category="proof",
         text="Lean 4 theorems over all graphs with try blocks (any nesting, any handler subset, failing handlers, bodies failing "
-             "at any command or spawning nested tasks) and all schedules: success_iff_body_ok, fail_iff_body_err, finally_always "
-             "(the `if` directions unless the owner's or the root context already has a cause of failure), "
+             "at any command or spawning nested tasks) and all schedules: success_iff_body_ok, fail_iff_body_err, finally_always, "
              "handlers_after_body_and_spawned, body_failure_contained (a task / the root reports an error exactly when a task of "
              "the same context closed with one, and a task closes with an error only with a cause in its own or the root "
-             "context), and the verified trace monitor. PARTIAL: the implementation is tied by trace conformance of a real app "
-             "(pip:try through the terminal, probe events, Err() of the owner task and of the app scope), sampled.",
+             "context); the `if` directions with a TIMED excuse: handler_starts_unless_prior_cause / "
+             "finally_starts_unless_prior_cause (a handler that has to run has started when the owner closes, or the trace "
+             "splits at the event that sealed its fate - its close without a first command, its acceptance into an already "
+             "failed context, a refused submission - with a cause of failure strictly before that event), "
+             "handlers_submitted_after_body, finally_submitted_first, accepted_handlers_close_before_owner_leaves; and for the "
+             "model under every steering policy of the gate controller: stall_free (the controller's time-out never fires: no "
+             "`stall` event), held_handler_awaits_live, steered_no_deadlock, steered_all_finish, steered_runs_accepted; the "
+             "verified trace monitor (accepts_iff, model_runs_accepted). PARTIAL: the implementation is tied by trace "
+             "conformance of a real app (pip:try through the terminal, probe events, handler submissions seen by a wrapper "
+             "around the PipRunner service, Err() of the owner task and of the app scope), free-running (sampled) and steered "
+             "(288 enumerated combinations per round).",
         design_ref="DESIGN.md 3 C16"),
-    level_note="Partial, as C14. Handlers are observed by their first probe command; a handler whose submission is refused because "
-               "the root scope is already done is excused by the clause (cause in the owner's or root context).",
-    technique="Lean 4 proof on the pipeline LTS model + verified trace monitor on recorded executions of the real pip:try",
+    level_note="Partial, as C14. Handlers are observed by their first probe command and by the outcome of their submission. "
+               "'Never starts while the other handler is held' is decided through the explicit `stall` event after a generous "
+               "wait (10 s), never through 'did not happen within t'. Finding KF-C16-1 (a handler accepted into an already "
+               "failed context runs detached from its owner: scope.NewChild does not register a child of a done scope) is "
+               "tolerated by the clause `acceptedAfterCause` and counted in the evidence.",
+    technique="Lean 4 proof on the pipeline LTS model (invariant, progress under steering by induction on nesting depth) + verified "
+              "trace monitor on recorded executions of the real pip:try, free-running and under steered schedules",
 )
 
 
